@@ -89,8 +89,18 @@ func parseGetValue(out string, terms []string) map[string]string {
 
 // writeReplay writes the replay file of a failed obligation and tries to confirm the
 // counter-example on the real code. Returns the file path and whether a failing input was confirmed.
+// replayBudget: for how many failed obligations of one check a counter-model is searched and replayed on the real code;
+// further failed obligations get the obligation record only (the first replays say what fails, the rest would only
+// multiply the time to the verdict)
+const replayBudget = 3
+
+var replaysDone int
+var searchMemo = map[string]*ReplayResult{}
+
 func writeReplay(v *Verifier, o *Obligation, dir, work, repo, root, prop string, seed int) (string, bool) {
 	os.MkdirAll(dir, 0755)
+	replaysDone++
+	light := replaysDone > replayBudget
 	path := filepath.Join(dir, sanitize(o.Name)+".replay.txt")
 	var b strings.Builder
 	fmt.Fprintf(&b, "property: %s\nobligation: %s\nkind: %s\nfunction: %s\nposition: %s\nclause: %s\n", prop, o.Name, o.Kind, o.Func, o.Pos, o.Src)
@@ -101,7 +111,11 @@ func writeReplay(v *Verifier, o *Obligation, dir, work, repo, root, prop string,
 		}
 	}
 	confirmed := false
-	model, how := cexModel(o, work, seed)
+	var model map[string]string
+	how := ""
+	if !light {
+		model, how = cexModel(o, work, seed)
+	}
 	var inputs map[string]string
 	if model != nil {
 		inputs = projectInputs(o, model)
@@ -116,7 +130,18 @@ func writeReplay(v *Verifier, o *Obligation, dir, work, repo, root, prop string,
 		}
 	}
 	// property-specific replay on the real code
-	rr := replayOnRealCode(v, o, prop, inputs, model, repo, root, work, seed)
+	var rr *ReplayResult
+	if !light {
+		rr = replayOnRealCode(v, o, prop, inputs, model, repo, root, work, seed)
+	} else if m, ok := searchMemo[prop]; ok {
+		rr = m // the property-level witness search does not depend on the obligation: reuse its outcome
+	}
+	if rr != nil && !light && o.Kind != "language" && (prop == "C09" || prop == "C10") {
+		searchMemo[prop] = rr
+	}
+	if light && rr == nil {
+		fmt.Fprintf(&b, "\n(more than %d obligations failed in this check: counter-model search and replay were run for the first %d only)\n", replayBudget, replayBudget)
+	}
 	if rr != nil {
 		fmt.Fprintf(&b, "\nreplay on real code: %s\n%s\n", rr.Summary, rr.Detail)
 		confirmed = rr.Confirmed
